@@ -136,22 +136,9 @@ func DetectCompressed(f *os.File) (FileType, CompressionType) {
 	ftype := FileTypeUnknown
 	switch {
 	case hasPrefix(br, []byte{0x1f, 0x8b}):
-		zr, err := gzip.NewReader(br)
-		if err == nil {
-			zbr := bufio.NewReader(zr)
-			if isTar(zbr) {
-				ftype = detectTar(zbr)
-			}
-		}
+		// nothing inside a compressed stream is recognised (detectTar knows no type): do not run the decoder
 		return ftype, CompressedGzip
 	case hasPrefix(br, []byte("\xfd7zXZ\x00")):
-		zr, err := xz.NewReader(br, 0)
-		if err == nil {
-			zbr := bufio.NewReader(zr)
-			if isTar(zbr) {
-				ftype = detectTar(zbr)
-			}
-		}
 		return ftype, CompressedXz
 	case hasPrefix(br, []byte{0x50, 0x4b, 0x03, 0x04}):
 		return detectZip(f), CompressedNone
